@@ -27,6 +27,7 @@ type Engine struct {
 	globalInit map[*ssa.Global]*ssa.Const
 	Overlay  map[string][]byte
 	Notes    map[string]bool // abstractions encountered (reported in evidence)
+	rgNext   bool            // the next VerifyFunc is a rely/guarantee pass
 	CurProp  string          // property being checked (clauses marked onlyfor are obligations for their properties only)
 }
 
